@@ -199,6 +199,18 @@ pub fn gen_plan(t: &mut Tape) -> EnumPlan {
                 r += 1;
             }
         }
+        // positional counterpart: index renames may send the mapped members to other positions than their running order
+        if d_shape == Shape::Tuple && variant_expr.is_none() && r >= 2 && t.chance(1, 4) {
+            let mut perm: Vec<usize> = (0..r).collect();
+            t.shuffle(&mut perm);
+            let mut k = 0;
+            for f in fields.iter_mut() {
+                if let PRole::Mapped { d_member, .. } = f {
+                    *d_member = format!("{}", perm[k]);
+                    k += 1;
+                }
+            }
+        }
         // D-only payload members
         let mut d_extra = vec![];
         if d_shape != Shape::Unit && shape != Shape::Unit && variant_expr.is_none() && has_into && t.chance(1, 6) {
@@ -266,6 +278,10 @@ fn d_variant_members(v: &VPlan) -> Vec<(String, Option<usize>)> {
         }
         for (m, _) in d_extra {
             out.push((m.clone(), None));
+        }
+        // a positional counterpart declares its members in index order
+        if out.iter().all(|(m, _)| m.parse::<usize>().is_ok()) {
+            out.sort_by_key(|(m, _)| m.parse::<usize>().unwrap());
         }
     }
     out
@@ -407,7 +423,12 @@ pub fn render(t: &mut Tape, plan: &EnumPlan, core_only: bool) -> E2Case {
                 }
                 // payload field instructions
                 if variant_expr.is_none() && *d_shape != Shape::Unit && v.shape != Shape::Unit {
+                    let mut running = 0usize;
                     for (i, f) in fields.iter().enumerate() {
+                        let this_running = running;
+                        if matches!(f, PRole::Mapped { .. }) {
+                            running += 1;
+                        }
                         match f {
                             PRole::Ghost { default } => {
                                 labels.push("payload-ghost".into());
@@ -417,7 +438,10 @@ pub fn render(t: &mut Tape, plan: &EnumPlan, core_only: bool) -> E2Case {
                                 // default counterpart member: same name / same position
                                 let default_member = if v.shape == Shape::Named && *d_shape == Shape::Named { v.field_names[i].clone() } else if *d_shape == Shape::Named { String::new() } else { format!("{}", i) };
                                 // positional counterpart: the member's position is its running index among mapped fields
-                                let rename_needed = *d_shape == Shape::Named && *d_member != default_member;
+                                let rename_needed = (*d_shape == Shape::Named && *d_member != default_member) || (*d_shape == Shape::Tuple && *d_member != format!("{}", this_running));
+                                if *d_shape == Shape::Tuple && rename_needed {
+                                    labels.push("payload-index-rename".into());
+                                }
                                 let member = if rename_needed { Some(d_member.clone()) } else { None };
                                 if rename_needed {
                                     labels.push("payload-rename".into());
